@@ -126,6 +126,9 @@ class Ev:
                 a, b = self.ev(fn, n['l'], env, depth), self.ev(fn, n['r'], env, depth)
                 if a == const(1) and len(b) == 1 and list(b.values()) == [1]:
                     return sym('2^(%s)' % show(b))
+            if op in ('Div', 'Rem'):
+                a, b = self.ev(fn, n['l'], env, depth), self.ev(fn, n['r'], env, depth)
+                return sym('(%s)%s(%s)' % (show(a), '/' if op == 'Div' else '%', show(b)))
             raise Unknown('operator ' + op)
         if k == 'Field':
             if n['n'] in ('start', 'end'):
@@ -150,6 +153,13 @@ class Ev:
                     return sym('len(%s.%s)' % (bt, r['n']))
             raise Unknown('len of non-field')
         if k in ('MCall', 'Call'):
+            nm0 = n.get('n') if k == 'MCall' else parse_path(callee(n) or '')[1]
+            argn0 = ([n['r']] if k == 'MCall' else []) + list(n.get('a', []))
+            if nm0 in ('min', 'max') and len(argn0) == 2:
+                # commutative opaque function of its (normalised) arguments
+                return sym('%s(%s)' % (nm0, ', '.join(sorted(show(self.ev(fn, a, env, depth)) for a in argn0))))
+            if nm0 in ('div_ceil', 'saturating_sub', 'checked_sub', 'pow') and len(argn0) == 2:
+                return sym('%s(%s)' % (nm0, ', '.join(show(self.ev(fn, a, env, depth)) for a in argn0)))
             t = self.target(n)
             if t is not None and depth > 0:
                 try:
@@ -165,6 +175,13 @@ class Ev:
                     pass
             nm = parse_path(callee(n) or '')[1] or n.get('n')
             if nm:
-                return sym('%s()' % nm)
+                # opaque function symbol; integer / field arguments that can be normalised are part of the symbol
+                parts = []
+                for a in argn0:
+                    try:
+                        parts.append(show(self.ev(fn, a, env, depth)))
+                    except Unknown:
+                        pass
+                return sym('%s(%s)' % (nm, ', '.join(parts)))
             raise Unknown('call')
         raise Unknown(str(k))
